@@ -218,6 +218,8 @@ def run(ctx):
             continue
         nums = parse_zlist(v.split('Some')[0]) if 'Some' in v else parse_zlist(v)
         mshape = parse_zlist(v.split('Some')[1]) if 'Some' in v else None
+        if api == 'numpy':
+            mshape = nums[0:2]          # the NumPy functions are 2-D only: no rank / layout dispatch
         pred = {'out': nums[0:2], 'start': nums[2:4], 'shape': mshape}
         a, b = axes_of(shape)
         ok = 'error' not in o and o.get('start') is not None and o['out_shape'] == mshape and \
